@@ -35,6 +35,14 @@ FIXED_CORPUS = [
     '{"method": "echo", "params": [-1e999], "id": 3}',
 ]
 
+# batches of more than a hundred entries (calls, a notification, an invalid entry; notifications only): run as they are
+# and cut at two places - damaging them at every position would cost thousands of long runs
+LARGE_BATCHES = [
+    "[" + ", ".join(['{"jsonrpc": "2.0", "method": "add", "params": [%d, 1], "id": %d}' % (i, i) for i in range(128)]
+                    + ['{"jsonrpc": "2.0", "method": "echo", "params": ["n"]}', "7"]) + "]",
+    "[" + ", ".join(['{"jsonrpc": "2.0", "method": "echo", "params": [%d]}' % i for i in range(140)]) + "]",
+]
+
 
 def structural_variants():
     """Members absent or bound to every JSON type; scalars and empty containers at top level."""
@@ -428,6 +436,11 @@ class C02Scenario(object):
                                         "dispatch": "instance" if k % 5 == 4 else "default", "fail_kind": k % 9 if k % 2 else 0, "npool": k % 7 == 3, "pause": [0, 0, 0, 7.0, 0, 30.0][k % 6], "debug_log": k % 5 == 2,
                                         "base": base, "damage": dm[i:i + self.BATCH]})
                 k += 1
+        for j, base in enumerate(LARGE_BATCHES):
+            for server in ("dispatcher", "plain"):
+                self.enumerated.append({"server": server, "version": [2.0, 1.0][j % 2], "jsonclass": True, "dispatch": "default",
+                                        "fail_kind": 0, "npool": server == "plain", "pause": 0, "debug_log": False, "base": base,
+                                        "damage": [["none"], ["trunc", len(base) // 2], ["trunc", len(base) - 1]]})
         self.must_cover = len(self.enumerated)
 
     def program_for(self, index, rng):
